@@ -349,8 +349,16 @@ class Check:
             files.append(f)
 
         def one(f):
-            cmd = ["timeout", str(timeout), "coqc", "-Q", str(TH), "Asphalt", "-w", "-notation-overridden", f.name]
-            return sh(cmd, cwd=str(d), timeout=timeout + 30)
+            # -noglob, and the compiled shard is deleted at once: only the printed result is needed, and the .glob /
+            # .vo files of a thorough run would otherwise take more than a gigabyte per property
+            cmd = ["timeout", str(timeout), "coqc", "-noglob", "-Q", str(TH), "Asphalt", "-w", "-notation-overridden", f.name]
+            res = sh(cmd, cwd=str(d), timeout=timeout + 30)
+            for ext in (".vo", ".vok", ".vos", ".glob"):
+                try:
+                    f.with_suffix(ext).unlink()
+                except OSError:
+                    pass
+            return res
 
         bad = []
         with ThreadPoolExecutor(NCPU) as ex:
